@@ -123,7 +123,9 @@ func replyIn(lang, name, text string) J {
 
 func reply(name, text string) J { return replyIn("eng", name, text) }
 
-func trueRule(dest int) legacyRule { return legacyRule{test: J{"type": "true"}, cat: "Other", dest: dest} }
+func trueRule(dest int) legacyRule {
+	return legacyRule{test: J{"type": "true"}, cat: "Other", dest: dest}
+}
 
 // rule set families: each ruleset_type with rules as the legacy editor wrote them. Nodes: 0 = entry
 // action set -> 1 = the rule set -> 2, 3 action sets.
